@@ -49,8 +49,15 @@ def build(fd, arbid, ext):
     if fd.get("decoy"):
         # another frame of the matrix with signals of the same names at the same start bits, but one bit wide and scaled by 7:
         # what is recorded for a frame is that frame's business
+        if fd["decoy"] == "otherfmt":
+            # the other frame has the other identifier format (and another number: CSV keys its rows by the number)
+            dext = not ext
+            did = (arbid + 1) if dext else ((arbid % 0x7FE) + 1 if (arbid % 0x7FE) + 1 != arbid else 1)
+        else:
+            dext = ext
+            did = arbid - 1 if (fd["decoy"] == "below" and arbid > 1) else arbid + 1 if arbid + 1 < (1 << (29 if ext else 11)) else arbid - 1
         dec = F.mkframe({"size": fd["size"], "sigs": [F.sigdesc(d[0], d[1], 1, d[3]) for d in fd["sigs"] if not d[6]]}, name="Decoy",
-                        arbid=(arbid - 1 if (fd["decoy"] == "below" and arbid > 1) else arbid + 1 if arbid + 1 < (1 << (29 if ext else 11)) else arbid - 1), extended=ext)
+                        arbid=did, extended=dext)
         for s in dec.signals:
             s.factor = decimal.Decimal(7)
             s.add_values(0, "a")
@@ -215,7 +222,7 @@ def gen_frame(rng):
             keep.append(d)
     fd["sigs"] = keep
     if rng.random() < 0.4:
-        fd["decoy"] = rng.choice(["below", "above"])
+        fd["decoy"] = rng.choice(["below", "above", "otherfmt"])
     if rng.random() < 0.4:
         for d in fd["sigs"]:
             if not d[5] and not d[6] and rng.random() < 0.7:
